@@ -78,7 +78,7 @@ def _params(ck: Check):
              "nmax": 64, "lmax": 4, "lemma_outer": 10, "lemma_n": 14}
     else:
         p = {"max_outer": 512, "extra_outers": sorted(rng.sample(range(513, 4097), 48)),
-             "nmax": 64, "lmax": 4, "lemma_outer": 8, "lemma_n": 10}
+             "nmax": 64, "lmax": 4, "lemma_outer": 7, "lemma_n": 8}
     return p
 
 
@@ -107,24 +107,30 @@ def run(ck: Check):
     json.dump(P, open(pfile, "w"))
     env = dict(JAVA_ENV, PARAM_FILE=pfile)
 
-    # ---- lemmas: the fast predicates and the recursive chain enumeration equal the brute-force definitions
-    res = ck.tlc_expect_ok("MC_TileShapes", "MC_TileShapes_lemma.cfg", env=env, required_actions=("Compute",),
-                           timeout=2400, workers=6)
+    # ---- one TLC run: lemmas (the fast predicates and the recursive chain enumeration equal the brute-force
+    #      definitions), expected perfect candidate sets, expected chain counts
+    res = ck.tlc("MC_TileShapes", "MC_TileShapes_all.cfg", env=env, required_actions=("Compute",),
+                 timeout=3000, workers=6)
+    if not res.ok:
+        if "LemmaHolds" in (res.violated or ""):
+            raise Machinery("a TileShapes lemma fails (the spec's own definitions disagree): %s\n%s"
+                            % (res.violated, res.tail))
+        raise Machinery("generator failed: %s\n%s" % (res.violated, res.tail))
+    perfect_recs = [r for r in res.records if r["job"]["kind"] == "perfect"]
+    chain_recs = [r for r in res.records if r["job"]["kind"] == "chains"]
+    n_lemma = res.distinct // 2 - len(perfect_recs) - len(chain_recs)
+    if n_lemma < 1:
+        raise Machinery("no lemma job was run")
     ck.extra["role_A"] = ("TLC checked on every subset C of 0..outer+1 (outer <= %d, inner | outer) that ImperfectOK and both "
                           "readings' fast forms equal their Min-based definitions and that the readings coincide for "
                           "inner = 1; and for n <= %d, all patterns of length <= 4, that ChainSet equals the filter over all "
-                          "choice sequences and, for perfect patterns, counts the ordered factorisations (%d lemma jobs)"
-                          % (P["lemma_outer"], P["lemma_n"], res.distinct // 2))
-
-    lap("lemmas_tlc")
+                          "choice sequences and, for perfect patterns, counts the ordered factorisations (%d lemma jobs, "
+                          "invariant LemmaHolds)" % (P["lemma_outer"], P["lemma_n"], n_lemma))
+    lap("tlc_lemmas_and_generators")
     # ---- B1: perfect candidate sets
-    res = ck.tlc("MC_TileShapes", "MC_TileShapes_perfect.cfg", env=env, coverage=False, timeout=3000, workers=6)
-    if not res.ok:
-        raise Machinery("perfect generator failed: %s\n%s" % (res.violated, res.tail))
-    lap("perfect_tlc")
     expected = {}
-    for r in res.records:
-        o = r["job"]["outer"]
+    for r in perfect_recs:
+        o = r["job"]["a"]
         for inner, cands in r["out"]:
             expected[(o, inner)] = sorted(cands)
     outers = set(range(1, P["max_outer"] + 1)) | set(P["extra_outers"])
@@ -162,15 +168,12 @@ def run(ck: Check):
 
     lap("perfect_replay")
     # ---- B2: mapspace-size counter
-    res = ck.tlc("MC_TileShapes", "MC_TileShapes_chains.cfg", env=env, coverage=False, timeout=3000, workers=6)
-    if not res.ok:
-        raise Machinery("chain generator failed: %s\n%s" % (res.violated, res.tail))
     want = P["nmax"] * (2 ** (P["lmax"] + 1) - 1)
-    if len(res.records) != want:
-        raise Machinery("chain generator printed %d cases, expected %d" % (len(res.records), want))
+    if len(chain_recs) != want:
+        raise Machinery("chain generator printed %d cases, expected %d" % (len(chain_recs), want))
     from accelforge.util._mathfuncs import _count_factorizations
-    for r in sorted(res.records, key=lambda r: (r["job"]["n"], len(r["job"]["pat"]), r["job"]["pat"])):
-        n, pat, exp = r["job"]["n"], [bool(x) for x in r["job"]["pat"]], r["out"]
+    for r in sorted(chain_recs, key=lambda r: (r["job"]["a"], len(r["job"]["pat"]), r["job"]["pat"])):
+        n, pat, exp = r["job"]["a"], [bool(x) for x in r["job"]["pat"]], r["out"]
         ck.traces += 1
         ck.evaluations += 1
         case = {"kind": "count", "n": n, "pat": pat}
@@ -188,7 +191,7 @@ def run(ck: Check):
         if n == 60 and pat == [True, False, False]:
             ck.sample(dict(case, expected=exp))
 
-    lap("chains_tlc_and_replay")
+    lap("chains_replay")
     # ---- C: imperfect candidate sets recorded from the code, judged by TLC
     recorded = []
     for outer, inner, got, err in _pmap(_imperfect_chunk, pairs):
